@@ -29,6 +29,13 @@ ASSUMPTIONS = [
     "index_market_data_subscription_batches (as the indexed dynamic stream builder does) -> "
     "Keyed<InstrumentIndex, MarketDataInstrument>; the event must carry the InstrumentIndex of exactly the instrument "
     "subscribed under the market; universe instruments are pairwise distinguishable by (exchange, kind, base, quote)",
+    "a market may be subscribed twice in a row (the same instrument again, or a second instrument with its own key "
+    "that resolves to the same market - not for the indexed flavour, where the indexer gives both the same index): for "
+    "that market either key is acceptable, every other market must carry exactly its own key; the simulated Bitfinex "
+    "venue ignores a repeated subscribe of one symbol on a connection",
+    "messages replayed through the public process_buffered_events (frames buffered during subscription validation) "
+    "must give exactly the outputs of the live path, in order; ping/pong frames and a text frame no message type "
+    "parses are skipped by design",
     "L1 routes (Binance book ticker, Kraken spread): an empty book side is sent as price 0 / amount 0 (the convention "
     "the connectors' own `is_zero` guards in binance/book/l1.rs and kraken/book/l1.rs encode); the event must then "
     "state exactly the other side and no level for the empty one",
@@ -116,11 +123,12 @@ def route_of(line):
 
 
 def subs_of(seg):
-    """market -> key as the last Subscribe of the segment says"""
+    """market -> acceptable keys as the last Subscribe of the segment says (two for a market under
+    which two instruments were subscribed)"""
     subs = {}
     for l in seg:
         if l["a"] == "Subscribe":
-            subs = {m: ((m - 1 + l["off"]) % 5) + 1 for m in l["S"]}
+            subs = {m: [((m - 1 + l["off"]) % 5) + 1] + ([6] if m == l.get("d") and l.get("dk") == 2 else []) for m in l["S"]}
         elif l["a"] in ("Disconnect", "Reset"):
             subs = {}
     return subs
@@ -135,7 +143,7 @@ def classify(line, subs):
         evs = [o for o in out if o["k"] == "ev"]
         if not evs:
             oc = "unidentifiable"
-        elif any(o["key"] != subs[m] for o in evs):
+        elif any(o["key"] not in subs[m] for o in evs):
             oc = "event-for-another-instrument"
         elif any(o["ex"] != line["c"][0] for o in evs):
             oc = "wrong-exchange-id"
@@ -152,11 +160,12 @@ def classify(line, subs):
             oc = "fields:" + "+".join(diff)
     else:
         oc = "event-for-unsubscribed-market" if any(o["k"] == "ev" for o in out) else "not-one-unidentifiable-error"
-    return "%s/%s:%s->%s" % (route_of(line), line["fl"], "subscribed" if sub else "unsubscribed", oc)
+    return "%s/%s:%s%s->%s" % (route_of(line), line["fl"], "buffered-" if line.get("buf") else "",
+                               "subscribed" if sub else "unsubscribed", oc)
 
 
 def scenario_of(seg):
-    return {"evs": [{k: l[k] for k in ("a", "S", "off", "m", "fs")} for l in seg if l["a"] != "Reset"]}
+    return {"evs": [{k: l[k] for k in ("a", "S", "off", "d", "dk", "buf", "m", "fs")} for l in seg if l["a"] != "Reset"]}
 
 
 def details(ctx, route, fl, scenario):
@@ -173,8 +182,13 @@ def details(ctx, route, fl, scenario):
 
 def describe(ctx, line, seg, subs, verbose=False):
     route, fl = route_of(line), line["fl"]
-    text = "%s (%s instruments): subscribed markets->keys %s; venue message about market %d with items %s -> %s" % (
-        route, fl, json.dumps(subs, sort_keys=True), line["m"], json.dumps(line["fs"]), json.dumps(line["out"]))
+    last_sub = ([l for l in seg if l["a"] == "Subscribe"] or [{}])[-1]
+    rep = ""
+    if last_sub.get("dk"):
+        rep = " (market %d subscribed twice in a row: %s)" % (last_sub["d"], "the same instrument" if last_sub["dk"] == 1 else "a second instrument, key 6")
+    text = "%s (%s instruments): subscribed markets->acceptable keys %s%s; %svenue message about market %d with items %s -> %s" % (
+        route, fl, json.dumps(subs, sort_keys=True), rep, "BUFFERED (process_buffered_events) " if line.get("buf") else "",
+        line["m"], json.dumps(line["fs"]), json.dumps(line["out"]))
     try:
         det = details(ctx, route, fl, scenario_of(seg))
         sub = [d for d in det if d["a"] == "Subscribe"][-1]["detail"]
@@ -238,7 +252,7 @@ def arms(ctx, info, need=True):
                               route, fl, ex["S"], json.dumps(ex["detail"]["requests_name"]),
                               json.dumps(ex["detail"]["venue_symbols_of_subscribed_instruments"]), v["request_mismatch"]),
                           {"route": route, "flavour": fl, "scenario": {"evs": [
-                              {"a": "Subscribe", "S": ex["S"], "off": ex["off"], "m": 0, "fs": []}]}})
+                              {"a": "Subscribe", "S": ex["S"], "off": ex["off"], "d": 0, "dk": 0, "buf": False, "m": 0, "fs": []}]}})
         if need and not (v.get("messages_subscribed") and v.get("messages_unsubscribed") and v.get("subscribes")):
             raise vlib.ToolError("vacuous run: route %s exercised %s" % (key, v))
 
@@ -256,7 +270,11 @@ def check(ctx):
     p_b, scn_b = ctx.tlc_gen("Gen_" + MODULE, "GenB_MarketRouting.cfg", "behaviours.ndjson", simulate=(nb, 30), timeout=900)
     ctx.sample({"kind": "TLC scenario (subset x message), run on every route and flavour", "scenario": scn_t[len(scn_t) // 2]})
     ctx.sample({"kind": "TLC simulated session", "scenario": {"evs": scn_b[0]["evs"][:8]}})
-    for label, scn, n in (("transitions", p_t, len(scn_t)), ("behaviours", p_b, len(scn_b))):
+    # (iii) a market subscribed twice in a row (same instrument / a second instrument under the same
+    #       market), every subset, then a message for every market, live and buffered alternating
+    p_d, scn_d = ctx.tlc_gen("Gen_" + MODULE, "GenD_MarketRouting.cfg", "repeated.ndjson")
+    ctx.sample({"kind": "TLC scenario with a repeated market", "scenario": scn_d[len(scn_d) // 2]})
+    for label, scn, n in (("transitions", p_t, len(scn_t)), ("repeated", p_d, len(scn_d)), ("behaviours", p_b, len(scn_b))):
         out = ctx.path("trace_%s.ndjson" % label)
         # generated items range over the four L1 side values: on other routes the one-sided ones are
         # duplicates (skipped in the exhaustive set, mapped to buy/sell in the sessions)
